@@ -323,7 +323,8 @@ example : ∃ (s : Stats) (notes : List Note), compareEntities [⟨.str [120], t
 
 ### (A) ONE comparer, a sequence of jobs — `compareProjects` drives one `ContentComparer` through the files of all locales
 
-`Sess.run l0 jobs` (CLModel/Compare/Session.lean): the jobs (`compare` / `add` / `remove` of a reference `File` and a localized
+`Sess.run ext l0 jobs` (CLModel/Compare/Session.lean; `ext` = the external library functions of the pipeline model of C05,
+`Pipe.Ext`, which only `text` jobs on DTD texts consult — every theorem holds FOR ALL `ext`): the jobs (`compare` / `add` / `remove` of a reference `File` and a localized
 `File`) run one after the other on the same `ObserverList` `l0` (the list's own `Observer` state plus the project observers).
 `getCount s L key` is `s.get(L, {}).get(key, 0)` of a summary.  `C03S.Tr l l' evs`: the `notify` / `updateStats` calls `evs`
 lead from `l` to `l'`.  `C03S.touches L j`: one of the job's two files has locale `L`. -/
@@ -332,11 +333,12 @@ open ObsM in
 /-- A job none of whose files has locale `L` leaves `summary[L]` alone — in the list's own summary and in the summary of
     every project observer, for all eleven counters.  (With the per-locale dicts of `Observer.__init__` shared between the
     locales this is false: every job would move the counters of every locale.) -/
-theorem job_leaves_other_locales_alone (l l' : ObsList) (j : Sess.Job) (o : Merge.Outcome) (hown : l.own.filter = none)
-    (h : Sess.runJob l j = .ok (l', o)) (L : Option Sess.Text) (hL : C03S.touches L j = false) :
+theorem job_leaves_other_locales_alone (ext : Pipe.Ext) (l l' : ObsList) (j : Sess.Job) (o : Merge.Outcome)
+    (hown : l.own.filter = none)
+    (h : Sess.runJob ext l j = .ok (l', o)) (L : Option Sess.Text) (hL : C03S.touches L j = false) :
     (∀ key, getCount l'.own.summary L key = getCount l.own.summary L key) ∧
       All₂ (fun ob ob' => ∀ key, getCount ob'.summary L key = getCount ob.summary L key) l.observers l'.observers := by
-  obtain ⟨evs, t, on⟩ := C03S.runJob_tr l l' j o h
+  obtain ⟨evs, t, on⟩ := C03S.runJob_tr ext l l' j o h
   have hz := C03S.on_not_touching on hL
   refine ⟨?_, ?_⟩
   · intro key
@@ -350,15 +352,15 @@ open ObsM in
     before plus the sum, over the jobs that touch locale `L` ONLY, of what that job's own notifications and stats count for
     (`countSpec`: one per non-ignored error / warning notification of the locale, plus the non-ignored stats values); the jobs
     are blocks `trs` of one history, each block about its job's own two files. -/
-theorem session_summary_is_locale_sum (l0 l' : ObsList) (jobs : List Sess.Job) (os : List Merge.Outcome)
-    (hown : l0.own.filter = none) (h : Sess.run l0 jobs = .ok (l', os)) :
+theorem session_summary_is_locale_sum (ext : Pipe.Ext) (l0 l' : ObsList) (jobs : List Sess.Job) (os : List Merge.Outcome)
+    (hown : l0.own.filter = none) (h : Sess.run ext l0 jobs = .ok (l', os)) :
     ∃ trs : List (List Ev), All₂ (fun j evs => C03S.On (C03S.jobFiles j) evs) jobs trs ∧ C03S.Tr l0 l' trs.flatten ∧
       (∀ L key, getCount l'.own.summary L key = getCount l0.own.summary L key +
         (((jobs.zip trs).filter (fun p => C03S.touches L p.1)).map (fun p => countSpec (ignList l0.filters) L key p.2)).sum) ∧
       All₂ (fun ob ob' => ∀ L key, getCount ob'.summary L key = getCount ob.summary L key +
         (((jobs.zip trs).filter (fun p => C03S.touches L p.1)).map (fun p => countSpec (ignObs ob.filter) L key p.2)).sum)
         l0.observers l'.observers := by
-  obtain ⟨trs, hall, t⟩ := C03S.run_tr jobs l0 l' os h
+  obtain ⟨trs, hall, t⟩ := C03S.run_tr ext jobs l0 l' os h
   refine ⟨trs, hall, t, ?_, ?_⟩
   · intro L key
     rw [(C03S.tr_own t hown).1 L key, C03S.sum_flatten, C03S.sum_touching _ L key jobs trs hall]
@@ -390,8 +392,9 @@ theorem unfiltered_job_is_plain_comparison (F : List (Option ObsM.Filter)) (file
 
 /-- non-vacuity: two locales through one comparer with one unfiltered project observer — a missing file of `de` (3 strings,
     5 words), then one of `fr` (1 string, 2 words): the run returns, and each locale's summary — of the list and of the
-    project observer — holds its own numbers only. -/
-example : (match Sess.run (ObsM.ObsList.init 0 [ObsM.Obs.init 0 none])
+    project observer — holds its own numbers only.  (Entity-level jobs: no external function is consulted; `default` is the
+    `Pipe.Ext` of the driver operations that send no table.) -/
+example : (match Sess.run default (ObsM.ObsList.init 0 [ObsM.Obs.init 0 none])
       [.add ⟨[97], none, none⟩ ⟨[100, 101, 47, 97], none, some [100, 101]⟩ false
           (.ents 6 [⟨.str [97], false, 2, 1, 0⟩, ⟨.str [98], false, 2, 2, 0⟩, ⟨.str [99], false, 1, 3, 0⟩]),
        .add ⟨[97], none, none⟩ ⟨[102, 114, 47, 97], none, some [102, 114]⟩ false (.ents 6 [⟨.str [97], false, 2, 1, 0⟩])] with
@@ -509,24 +512,53 @@ example : FtlC.equals (.term (Ftl.Term.mk 0 [97] (.mk 0 [.text [120]]) []))
 
 /-! ### (C) `Entry.equals` compares `val` (the unescaped value), never `raw_val` -/
 
-/-- The `equal` branch of the composed comparison (Compare/Pipeline.lean, parser + value semantics of C02): a shared key that
-    is no key binding is counted `unchanged` iff key and VALUE of the two entities agree, else `changed`; the raw texts are
-    not looked at, and the words are those of the reference value. -/
-theorem unchanged_by_value_not_raw (env : Pipe.Env) (ref l10n : List Pipe.PEnt) (st st' : Pipe.LoopSt) (k : Key)
+/-- The `equal` branch of the composed comparison (Compare/Pipeline.lean, parser + value semantics of C02), for every
+    entity class whose `equals` is `Entry.equals` (`env.cls ≠ .fluent`: ini, inc, po, properties, DTD, Android —
+    `FluentEntity.equals` compares the ASTs instead, `fluent_equals_is_erased_equality`; negation witness below): a shared
+    key that is no key binding is counted `unchanged` iff key and VALUE of the two entities agree, else `changed`; the raw
+    texts are not looked at, and the words are `count_words()` of the reference — which, for every entity the regex parsers
+    build (`Pipe.mkEnt`, any format, any external functions `ext`), are the words of its VALUE.
+    (Before the pipeline covered Fluent the model had no entity class and no `words` field: the statement read
+    `countWords refent.val` for every `env`; the second conjunct says this is what `refent.words` is.) -/
+theorem unchanged_by_value_not_raw (env : Pipe.Env) (hcls : env.cls ≠ .fluent) (ref l10n : List Pipe.PEnt)
+    (st st' : Pipe.LoopSt) (k : Key)
     (refent l10nent : Pipe.PEnt) (hr : Pipe.lookup ref k = .ok refent) (hl : Pipe.lookup l10n k = .ok l10nent)
     (hk : keyMatch k = false) (h : Pipe.step env ref l10n st (.equal, k) = .ok st') :
     st'.stats = (if refent.key == l10nent.key && refent.val == l10nent.val then
-        { st.stats with unchanged := st.stats.unchanged + 1, unchanged_w := st.stats.unchanged_w + countWords refent.val }
-      else { st.stats with changed := st.stats.changed + 1, changed_w := st.stats.changed_w + countWords refent.val }) :=
-  C03V.equal_step_by_val env ref l10n st st' k refent l10nent hr hl hk h
+        { st.stats with unchanged := st.stats.unchanged + 1, unchanged_w := st.stats.unchanged_w + refent.words }
+      else { st.stats with changed := st.stats.changed + 1, changed_w := st.stats.changed_w + refent.words }) ∧
+    (∀ (ext : Pipe.Ext) (fmt : P.Fmt) (s : Array Nat) (he : Hist.Ent), Pipe.mkEnt ext fmt s he = .ok refent →
+      refent.junk = false → refent.words = countWords refent.val) :=
+  ⟨C03V.equal_step_by_val env hcls ref l10n st st' k refent l10nent hr hl hk h,
+   fun ext fmt s he hm hj => (PipeBridge.mkEnt_words ext fmt s he refent hm).1 hj⟩
+
+/-- non-vacuity of the second conjunct: the entity the parser model builds for `k = two words` counts 2 words -/
+example : (match Pipe.parseFile default .properties #[107, 32, 61, 32, 116, 119, 111, 32, 119, 111, 114, 100, 115] 0 with
+    | .ok (es, _) => es.map (fun e => (e.junk, e.words, countWords e.val))
+    | .error _ => []) = [(false, 2, 2)] := by decide +kernel
+
+/-- NEGATION WITNESS for `env.cls ≠ .fluent`: two Fluent entities `a = x⏎ .t = y` and `a = x⏎ .t = z` have the same key and
+    the same `val` ("x") but their ASTs differ in an attribute (`equals` classes 0 and 1): the loop counts `changed` -/
+example :
+    let ast (c : Nat) : Ftl.Entry := .message (Ftl.Message.mk 0 [97] (some (.mk 4 [.text [120]])) [⟨8, [116], .mk 13 [.text [c]]⟩])
+    let ent (c eqc : Nat) : Pipe.PEnt :=
+      { entry := Pipe.noSpan .entity, junk := false, key := .str [97], val := [120], raw := [120],
+        all := [97, 32, 61, 32, 120, 10, 32, 32, 46, 116, 32, 61, 32, c], comment := none, words := 2, ftl := some (ast c, eqc) }
+    (match Pipe.step (Pipe.ftlEnv (Pipe.fileNamed Pipe.ftlFileName) false #[]) [ent 121 0] [ent 122 1] { obs := Pipe.stdObs }
+        (.equal, .str [97]) with
+     | .ok st' => (ent 121 0).key == (ent 122 1).key && (ent 121 0).val == (ent 122 1).val &&
+         st'.stats.changed == 1 && st'.stats.unchanged == 0 && st'.stats.changed_w == 2
+     | .error _ => false) = true := by decide +kernel
 
 /-- `.properties`: the value is the documented unescape of the raw text (`C02.props_unescape_is_spec`), so two entities whose
-    raw texts differ but unescape to the same text have the same `val` — and are `unchanged` by the theorem above. -/
-theorem properties_same_unescape_same_value (s1 s2 : Array Nat) (h1 h2 : Hist.Ent) (a b : Pipe.PEnt)
-    (ha : Pipe.mkEnt .properties s1 h1 = .ok a) (hb : Pipe.mkEnt .properties s2 h2 = .ok b) (ja : a.junk = false)
+    raw texts differ but unescape to the same text have the same `val` — and are `unchanged` by the theorem above.
+    (`ext`: the external functions of the pipeline model, which `.properties` never consults — for all of them.) -/
+theorem properties_same_unescape_same_value (ext : Pipe.Ext) (s1 s2 : Array Nat) (h1 h2 : Hist.Ent) (a b : Pipe.PEnt)
+    (ha : Pipe.mkEnt ext P.Fmt.properties s1 h1 = .ok a) (hb : Pipe.mkEnt ext P.Fmt.properties s2 h2 = .ok b)
+    (ja : a.junk = false)
     (jb : b.junk = false) (hv : P.propsUnescapeSpec a.raw = P.propsUnescapeSpec b.raw) :
     a.val = b.val ∧ a.val = P.propsUnescapeSpec a.raw :=
-  ⟨C03V.props_same_value s1 s2 h1 h2 a b ha hb ja jb hv, C03V.mkEnt_props_val s1 h1 a ha ja⟩
+  ⟨C03V.props_same_value ext s1 s2 h1 h2 a b ha hb ja jb hv, C03V.mkEnt_props_val ext s1 h1 a ha ja⟩
 
 /-- `café` and `café`; `two \⏎   words` (line continuation) and `two words`: different raw texts, one value -/
 example : P.propsUnescapeSpec [99, 97, 102, 92, 117, 48, 48, 101, 57] = P.propsUnescapeSpec [99, 97, 102, 233] ∧
